@@ -99,6 +99,18 @@ fam!(row_both R05 [] { a: i32, #[scylla(skip)] s: String, b: Option<String>, c: 
 fam!(row_both R06 [] { a: i32, #[scylla(default_when_null)] b: String, #[scylla(default_when_null)] c: Option<i64>, d: Vec<i32> });
 fam!(row_both R07 [] { a: i32, b: i32, c: Option<i32>, d: String, e: String });
 
+// declaration order deliberately not alphabetical (and not the order of the database names)
+fam!(value_both V18 [] { zed: i32, mid: i32, alpha: Option<i32>, #[scylla(rename = "omega")] beta: String });
+fam!(value_both V34 [flavor = "enforce_order"] { zed: i32, mid: i32, alpha: Option<i32>, #[scylla(rename = "omega")] beta: String });
+fam!(row_both R11 [] { zed: i32, mid: i32, alpha: Option<i32>, #[scylla(rename = "omega")] beta: String });
+fam!(row_both R31 [flavor = "enforce_order"] { zed: i32, mid: i32, alpha: Option<i32>, #[scylla(rename = "omega")] beta: String });
+
+// same-typed and not alphabetical: a field bound through the wrong name is a silently wrong value
+fam!(value_both V19 [] { zed: i32, mid: i32, alpha: i32 });
+fam!(row_both R14 [] { zed: i32, mid: i32, alpha: i32 });
+// names crossed by rename between two same-typed fields: binding by Rust name is a silently swapped value
+fam!(value_both V35 [] { #[scylla(rename = "b")] a: i32, #[scylla(rename = "a")] b: i32, c: String });
+fam!(row_both R15 [] { #[scylla(rename = "b")] a: i32, #[scylla(rename = "a")] b: i32, c: String });
 // single-derive structs (attribute sets that only one of the two value macros documents)
 fam!(value_ser V13 [] { a: i32, b: Option<String>, c: i64 });
 fam!(value_de V14 [] {
@@ -188,6 +200,14 @@ pub fn family() -> Vec<Entry> {
         V15::entry(),
         V16::entry(),
         V17::entry(),
+        V18::entry(),
+        V19::entry(),
+        V35::entry(),
+        R15::entry(),
+        R14::entry(),
+        V34::entry(),
+        R11::entry(),
+        R31::entry(),
         V20::entry(),
         V21::entry(),
         V22::entry(),
